@@ -25,3 +25,10 @@ contract("C04.onset_groups_judged_independently", file="hed/validator/def_valida
 contract("C04.tags_judged_independently", file="hed/validator/hed_validator.py", func="HedValidator._validate_individual_tags_in_hed_string",
          params={"self": "Opaque", "hed_string_obj": "Opaque", "allow_placeholders": "Opaque"}, returns="Opaque", enc="native", also=["C01"],
          ghost=dict(IND, independent_iterations={0: ["validation_issues"], 1: ["validation_issues"]}), ensures={})
+
+# C04 "groups that differ in nesting are different groups": the canonical text two groups are compared by brackets every group level, so
+# (Red,(Blue,Green)) and (Red,(Blue),(Green)) - same tags, different nesting - never get the same text
+contract("C04.canonical_text_brackets_every_group", file="hed/models/hed_group.py", func="HedGroup._sorted_text",
+         params={"sorted_children": "Opaque"}, returns="Str", enc="native",
+         ensures={"C04.canonical.text_is_bracketed": "len(result) >= 2 and result.startswith('(') and result.endswith(')')"},
+         assume=["the text between the brackets is the comma-joined canonical texts of the children (bounded workload rt/c04)"])
